@@ -95,7 +95,7 @@ fn gen_item(r: &mut Rng, fam: &str, idx: usize) -> TypeItemSpec {
     let unit = unit_name(fam, idx);
     // a second name that other families use too (at other indices): a conversion by that name must stay
     // inside the source's own family
-    let shared = format!("shr{}", (b'a' + r.below(3) as u8) as char);
+    let shared = format!("shr{}", (b'a' + r.below(2) as u8) as char);
     TypeItemSpec { family: fam.to_string(), index: idx, format: format!("{{value}} {}", unit), parse: vec![format!("{{NUMBER:value}} {{TEXT:type:{}}}", unit)], upgrade: format!("{{value}} / {}", up), downgrade: format!("{{value}} * {}", down), names: vec![unit, shared] }
 }
 
@@ -177,9 +177,12 @@ impl Check for C18 {
         // what the generator believes is registered (used only to aim probes; the oracle uses the model)
         let mut shapes_seen: Vec<usize> = Vec::new();
         let mut fams_seen: Vec<(String, Vec<usize>)> = Vec::new();
-        if r.chance(1, 2) {
-            // set-up burst: a family with a contiguous chain, so that conversions are judged from the start
-            let fam = r.pick(FAMILIES).to_string();
+        let bursts = match r.below(4) { 0 => 0, 1 | 2 => 1, _ => 2 };
+        for burst in 0..bursts {
+            // set-up burst: one or two families with a contiguous chain, so that conversions (also by a
+            // unit name that both families use) are judged from the start
+            let fam = FAMILIES[(r.usize(FAMILIES.len()) + burst) % FAMILIES.len()].to_string();
+            if fams_seen.iter().any(|(f, _)| *f == fam) { continue; }
             events.push(Event { actor: ADMIN, op: Op::Admin(AdminOp::AddType { name: fam.clone() }), clock: ClockScript::Frozen { t } });
             let lo = r.usize(2);
             let hi = 2 + r.usize(3);
@@ -220,7 +223,7 @@ impl Check for C18 {
                         let (fam, idxs) = *r.pick(&with_items);
                         let a = *r.pick(idxs);
                         let b = *r.pick(idxs);
-                        let target = if r.chance(1, 4) { format!("shr{}", (b'a' + r.below(3) as u8) as char) } else { unit_name(fam, b) };
+                        let target = if r.chance(1, 3) { format!("shr{}", (b'a' + r.below(2) as u8) as char) } else { unit_name(fam, b) };
                         format!("{} {} {} {}", 3600 * (1 + r.below(50)), unit_name(fam, a), r.pick(&["to", "in", "as", "into"]), target)
                     } else {
                         let fam = *r.pick(FAMILIES);
